@@ -135,7 +135,8 @@ impl AwsChunkedStream {
                 loop {
                     let meta = {
                         match Self::read_meta_bytes(body.as_mut(), prev_bytes, &mut buf).await {
-                            None => break,
+                            // the transport ended before the signed zero-length chunk was received
+                            None => return Err(AwsChunkedStreamError::Incomplete),
                             Some(Err(e)) => return Err(AwsChunkedStreamError::Underlying(e)),
                             Some(Ok(remaining_bytes)) => prev_bytes = remaining_bytes,
                         }
@@ -162,8 +163,15 @@ impl AwsChunkedStream {
                         Some(signature) => ctx.prev_signature = signature,
                     }
 
+                    // the signed zero-length chunk terminates the upload
+                    let is_final_chunk = meta.size == 0;
+
                     for bytes in data {
                         y.yield_ok(bytes).await;
+                    }
+
+                    if is_final_chunk {
+                        break;
                     }
                 }
 
